@@ -275,6 +275,20 @@ def crlfLines (b : Bytes) : List Bytes :=
     ones (the exact-image check of `walkHead` over the admissible layouts implies it; checked again on the bytes) -/
 def oracleC16 (c : TCase) : Verdict :=
   let s := walkHead c false
+  -- the accessor headers_map(): every name the caller added is in it
+  let addedSoFar := c.lines.foldl (fun (acc : List String × Option String) t =>
+    match t.kw, t.op, t.res with
+    | "new", _, _ | "follow", _, "flow" :: _ => ([], acc.2)
+    | "hdr", [_, k, _], ["unit"] => (k.toLower :: acc.1, acc.2)
+    | "hmap", _, "map" :: _ :: kvs =>
+      let names := (List.range (kvs.length / 2)).map fun i => kvs.getD (2 * i) ""
+      (match acc.1.find? (fun n => !names.contains n) with
+       | some n => (acc.1, acc.2.orElse fun _ => some s!"headers_map() lacks the header {n} the caller added")
+       | none => acc)
+    | _, _, _ => acc) (([] : List String), (none : Option String))
+  match addedSoFar.2 with
+  | some w => .fail w
+  | none =>
   match s.fail with
   | some w => .fail w
   | none =>
